@@ -136,6 +136,65 @@ class Runner:
         realopt.set_hyper(self.opt, gi, self.draw["groups"][gi], ev["key"], ev["v"])
         self.trace.append({"ev": "SetHyper", "g": ev["g"], "key": ev["key"], "v": ev["v"]})
 
+    # ---- checkpointing on the live optimizer (ShampooOpt!Save / Load) --------------------------------
+    def named_params(self):
+        return [(f"g{gi}.p{pi}", p) for gi, ps in enumerate(self.params) for pi, p in enumerate(ps)]
+
+    def durable_snapshot(self):
+        return [({k: h for k, h in realopt.snapshot(self.opt, gi).items() if k[1] != "param"}, realopt.group_step_value(self.opt, gi))
+                for gi in range(self.ng)]
+
+    def do_save(self):
+        import copy
+        import io
+        sd = self.opt.distributed_state_dict(key_to_param=iter(self.named_params()))
+        buf = io.BytesIO()
+        torch.save(sd, buf)                      # through the serialiser: nothing may alias the live state
+        self._ckpt = {"bytes": buf.getvalue(), "root_at": copy.deepcopy(self.root_at), "hy": copy.deepcopy(self.hy),
+                      "refs": [r.save_state() for r in self.refs], "snap": self.durable_snapshot()}
+        self.trace.append({"ev": "Save"})
+        return []
+
+    def do_load(self):
+        """load_distributed_state_dict into the LIVE optimizer (rollback / reload)."""
+        import copy
+        import io
+        ck = self._ckpt
+        sd = torch.load(io.BytesIO(ck["bytes"]), weights_only=False)
+        mism = []
+        try:
+            self.opt.load_distributed_state_dict(state_dict=sd, key_to_param=iter(self.named_params()))
+        except Exception as ex:  # noqa
+            mism.append(("load.raised", "checkpoint of this optimizer loads", f"{type(ex).__name__}: {str(ex)[:120]}"))
+        self.root_at = copy.deepcopy(ck["root_at"])
+        self.hy = copy.deepcopy(ck["hy"])
+        for r, sv in zip(self.refs, ck["refs"]):
+            r.load_state(sv)
+        if not mism:
+            now = self.durable_snapshot()
+            for gi, ((a, sa), (b, sb)) in enumerate(zip(ck["snap"], now)):
+                diff = sorted(str(k) for k in a if a[k] != b.get(k))
+                if diff or sa != sb:
+                    mism.append((f"g{gi+1}.load.state_restored", f"every state tensor and the step counter ({sa}) as saved",
+                                 f"step {sb}, differs in {diff[:4]}"))
+            for gi, g in enumerate(self.draw["groups"]):
+                for key in ("lr", "mom", "b1", "wd"):
+                    if not realopt.hyper_equals(self.opt, gi, g, key, self.hy[gi][key]):
+                        mism.append((f"g{gi+1}.load.param_group.{key}", "value in force when saved", "different"))
+        self.trace.append({"ev": "Load"})
+        return mism
+
+    def do_event(self, ev):
+        """Non-step events of a behaviour.  Returns None if `ev` is a Step (caller handles it), else the mismatch list."""
+        if ev["ev"] == "SetHyper":
+            self.do_sethyper(ev)
+            return []
+        if ev["ev"] == "Save":
+            return self.do_save()
+        if ev["ev"] == "Load":
+            return self.do_load()
+        return None
+
     def make_grads(self, present, outc):
         draw = self.draw
         grads = []
@@ -381,8 +440,11 @@ def run_behaviour(draw, beh, pt2=None, numeric=True, stop_at_first=True, runner=
     r = runner or Runner(draw, pt2=pt2, numeric=numeric)
     out = []
     for i, ev in enumerate(beh):
-        if ev["ev"] == "SetHyper":
-            r.do_sethyper(ev)
+        em = r.do_event(ev)
+        if em is not None:
+            out += [(i + 1,) + tuple(m) for m in em]
+            if em and stop_at_first:
+                break
             continue
         mm = r.do_step(ev["present"], ev["outc"], expected=ev.get("obs"))
         if mm:
